@@ -33,9 +33,6 @@ Definition singleton_of (s : string) : singv :=
 Fixpoint compile (h : hpat) : ppat :=
   match h with
   | HAs p n => PMatchAs (Some (compile p)) (Some (mangle n))
-  | HLit (LStr s) =>
-      (* str(value) in ("None", "True", "False") is tested before the model's type *)
-      if mem s singleton_names then PMatchSingleton (SBadStr s) else PMatchValue (VEConst (LStr s))
   | HLit l => PMatchValue (VEConst l)
   | HSym s =>
       if mem s singleton_names then PMatchSingleton (singleton_of s)
@@ -44,7 +41,7 @@ Fixpoint compile (h : hpat) : ppat :=
   | HOr ps => PMatchOr (map compile ps)
   | HValue path => PMatchValue (VEDotted (map mangle path))
   | HSeq ps => PMatchSequence (map compile ps)
-  | HStar n => PMatchStar (Some (mangle n))
+  | HStar n => PMatchStar (if String.eqb n star_wildcard_name then None else Some (mangle n))
   | HMap keys ps rest => PMatchMapping (map VEConst keys) (map compile ps) (option_map mangle rest)
   | HClass cls ps kws kps => PMatchClass (map mangle cls) (map compile ps) (map kw_attr kws) (map compile kps)
   | HKeyword n => PMatchClass keyword_class_path [PMatchValue (VEConst (LStr n))] [] []
